@@ -157,7 +157,10 @@ def _case_st(fmt):
         d.update(gens=st.one_of(st.just([]), st.lists(_g, min_size=1, max_size=3)), gen0=_g,
                  use_gen0=st.sampled_from([True, True, False]),
                  loader=st.sampled_from(["from_npz", "load_npz", "subset"]),
-                 nsub=st.integers(0, 3))
+                 nsub=st.integers(0, 3),
+                 # atomic structure attached with set_structure(): None, without or with magnetic moments
+                 structure=st.one_of(st.none(), st.none(), st.fixed_dictionaries(dict(
+                     nat=st.integers(1, 3), magmom=st.booleans(), rs=st.integers(0, 2 ** 16)))))
     elif fmt == "tb":
         d.update(aa=st.sampled_from([True, True, True, False]),
                  mode=st.sampled_from(["II-file", "II-file", "II-passed", "I-passed", "II-noberry-file", "II-noberry-passed"]))
@@ -216,6 +219,15 @@ def doubled_model(model):
         Y[:, 0::2, 0::2] = X
         Y[:, 1::2, 1::2] = X
         mats[k] = Y
+    # double_spin() also sets the spin operator: on-site Pauli matrices inside every pair (2i, 2i+1)
+    sig = np.array([[[0, 1], [1, 0]], [[0, -1j], [1j, 0]], [[1, 0], [0, -1]]], dtype=complex)
+    SS = np.zeros((len(model.iRvec), 2 * nw, 2 * nw, 3), dtype=complex)
+    i0 = [tuple(int(x) for x in R) for R in model.iRvec].index((0, 0, 0))
+    for i in range(nw):
+        for a in range(2):
+            for b in range(2):
+                SS[i0, 2 * i + a, 2 * i + b, :] = sig[:, a, b]
+    mats["SS"] = SS
     return wbsys.Model(model.lattice.copy(), np.repeat(model.wcc_red, 2, axis=0), model.iRvec.copy(), mats)
 
 
@@ -351,6 +363,15 @@ def check_npz(case):
     if case.get("double") and not any(k.startswith("S") for k in model.mats):   # documented precondition: spinless
         s.double_spin()
         model = doubled_model(model)
+    struct = None
+    if case.get("structure"):
+        srng = rng_of(case["structure"]["rs"])
+        nat = case["structure"]["nat"]
+        struct = dict(positions=srng.uniform(0, 1, size=(nat, 3)),
+                      atom_labels=[["A", "B", "Fe"][int(i)] for i in srng.integers(0, 3, size=nat)],
+                      magnetic_moments=[list(v) for v in srng.uniform(-2, 2, size=(nat, 3))] if case["structure"]["magmom"] else None)
+        s.set_structure(positions=struct["positions"].copy(), atom_labels=list(struct["atom_labels"]),
+                        magnetic_moments=struct["magnetic_moments"])
     own = own_closure(gens)
     if s.pointgroup.size != len(own):
         # not a file round-trip issue (C09 territory) - would make the oracle below meaningless
@@ -410,9 +431,22 @@ def check_npz(case):
             raise Violation("npz:pointgroup-own", f"own-closure element TR={tr} R={np.round(R, 6).tolist()} not in reloaded group")
     if maxabs(np.asarray(pg.real_lattice) - L) > EPS_BIN * (1 + maxabs(L)):
         raise Violation("npz:pointgroup-lattice", "lattice stored in the point group differs")
+    if struct is not None:
+        if not hasattr(s2, "positions") or maxabs(np.asarray(s2.positions, dtype=float) - struct["positions"]) > 0:
+            raise Violation("npz:structure", "atomic positions lost or changed")
+        if [str(x) for x in np.asarray(s2.atom_labels).tolist()] != struct["atom_labels"]:
+            raise Violation("npz:structure", f"atom labels {np.asarray(s2.atom_labels).tolist()} != {struct['atom_labels']}")
+        mm = getattr(s2, "magnetic_moments", None)
+        if struct["magnetic_moments"] is None:
+            if mm is not None:
+                raise Violation("npz:structure", f"magnetic moments invented: {mm}")
+        elif mm is None or maxabs(np.asarray(mm, dtype=float) - np.array(struct["magnetic_moments"])) > 0:
+            raise Violation("npz:structure", "magnetic moments lost or changed")
     labels = set()
     if case["closed"]:
         labels = compare_physics(case, model, s, s2, what, EPS_BIN, EPS_BIN * (1 + maxabs(wcc)))
+    if struct is not None:
+        labels.add("structure+magmom" if struct["magnetic_moments"] is not None else "structure")
     nt = model.nw % 2 == 1 or len(own) > 1
     return ok(nt, "npz", f"group={len(own)}", "group>1" if len(own) > 1 else None,
               "TR-in-group" if any(tr for _, tr in own) else None,
